@@ -28,7 +28,7 @@ VERBS = {
     "SETPOWER": [S.biased(-10, 100)], "RFMUTE": [st.sampled_from([0, 1, 2, -1])],
     "SETTA": [st.one_of(st.integers(0, 63), S.biased(-128, 127))],
     "SETSLOT": [st.integers(0, 7), st.integers(0, 13)],
-    "FAKE_TRXC_DELAY": [st.sampled_from([0, 0, 1, 200, -5])],
+    "FAKE_TRXC_DELAY": [st.sampled_from([0, 0, 1, 200, -5, 2000, 5000, 3600000])],
 }
 
 
@@ -69,12 +69,33 @@ def case_st(draw):
     for _ in range(draw(st.integers(1, 40))):
         t = draw(st.one_of(st.integers(0, n - 1), st.integers(0, 1)))
         src = draw(st.one_of(st.none(), st.none(), st.tuples(st.sampled_from(["127.0.0.1", "10.1.2.3"]), st.integers(1024, 65535))))
+        if steps and steps[-1]["op"] == "cmd" and draw(st.integers(0, 6)) == 0:
+            steps.append(dict(steps[-1]))          # the same datagram again (an L1 retransmission)
+            continue
+        if draw(st.integers(0, 7)) == 0:
+            # MEASURE on a frequency some transceiver is actually tuned to (resolved when the history runs)
+            steps.append({"op": "cmd", "t": t, "verb": "MEASURE", "args": ["@tx%d" % draw(st.integers(0, n - 1))], "src": src})
+            continue
         if draw(st.integers(0, 11)) == 0:
             data = draw(st.sampled_from([b"RSP POWERON 0\0", b"IND CLOCK 5\0", b"\0", b"cmd POWERON\0", b" CMD POWERON\0", b"POWERON\0", b"CM", b"XCMD\0"]))
             steps.append({"op": "raw", "t": t, "data": data, "src": src})
         else:
             verb, args = draw(command())
             steps.append({"op": "cmd", "t": t, "verb": verb, "args": args, "src": src})
+    if draw(st.integers(0, 3)) == 0:
+        # motif: measure a carrier, change the state of the transceiver that radiates it, measure again
+        p_, q_ = draw(st.integers(0, n - 1)), draw(st.integers(0, n - 1))
+        f = str(draw(st.sampled_from(simgen.FREQ_POOL)))
+        change = draw(st.sampled_from([("SETFH", ["3", "0", "890000", "935000", "890200", "935200"]), ("TXTUNE", ["947000"]), ("POWEROFF", []),
+                                       ("RFMUTE", ["1"]), ("SETFORMAT", ["1"]), ("RXTUNE", ["947000"])]))
+        motif = [{"op": "cmd", "t": p_, "verb": "RXTUNE", "args": [f], "src": None}, {"op": "cmd", "t": p_, "verb": "TXTUNE", "args": [f], "src": None},
+                 {"op": "cmd", "t": p_, "verb": "POWERON", "args": [], "src": None},
+                 {"op": "cmd", "t": q_, "verb": "MEASURE", "args": ["@tx%d" % p_], "src": None},
+                 {"op": "cmd", "t": p_, "verb": change[0], "args": list(change[1]), "src": None},
+                 {"op": "cmd", "t": q_, "verb": "MEASURE", "args": [f], "src": None},
+                 {"op": "cmd", "t": q_, "verb": "MEASURE", "args": ["@tx%d" % p_], "src": None}]
+        k = draw(st.integers(0, len(steps)))
+        steps = steps[:k] + motif + steps[k:]
     return {"cfg": cfg, "steps": steps}
 
 
@@ -88,7 +109,11 @@ def oracle(case):
                 s.raw_ctrl(st_["t"], st_["data"], src=src)
                 dep.add("non-CMD")
                 continue
-            i, verb, args = st_["t"], st_["verb"], st_["args"]
+            i, verb, args = st_["t"], st_["verb"], list(st_["args"])
+            for k_, a_ in enumerate(args):
+                if a_.startswith("@tx"):
+                    f_ = s.model.trx[int(a_[3:]) % s.n].tx
+                    args[k_] = str((f_ if f_ is not None else 935000000) // 1000)
             m = s.model.trx[i]
             if verb == "POWERON" and not args and (m.running or m.ready):
                 dep.add("POWERON-state-dependent")
